@@ -299,3 +299,84 @@ func NilReturnsAfterFailure(fn *ssa.Function, callBlock *ssa.BasicBlock, same fu
 	}
 	return out
 }
+
+// ReturnsAfterFailureStrict: like NilReturnsAfterFailure, but a return is acceptable only when its last result is an
+// error that is certainly not nil under the assumption (the error itself, a wrap of it, a freshly made error, a join of
+// such values along the edges that remain); in a function without an error result every reachable return is reported.
+func ReturnsAfterFailureStrict(fn *ssa.Function, callBlock *ssa.BasicBlock, same func(ssa.Value) bool) []*ssa.Return {
+	seen := map[*ssa.BasicBlock]bool{}
+	exec := map[Edge]bool{}
+	only := -1
+	if len(callBlock.Instrs) > 0 {
+		if i, ok := callBlock.Instrs[len(callBlock.Instrs)-1].(*ssa.If); ok {
+			if cd, ok := Classify(i); ok && cd.Kind == "nil" && same(cd.X) {
+				only = cd.EdgeWhen(false).Succ
+			}
+		}
+	}
+	for si := range callBlock.Succs {
+		if only >= 0 && si != only {
+			continue
+		}
+		rb, ex := ReachFromAssume(fn, Edge{From: callBlock, Succ: si}, nil, same)
+		for b := range rb {
+			seen[b] = true
+		}
+		for ed := range ex {
+			exec[ed] = true
+		}
+	}
+	var sure func(v ssa.Value, depth int) bool
+	sure = func(v ssa.Value, depth int) bool {
+		if same(v) {
+			return true
+		}
+		switch x := v.(type) {
+		case *ssa.MakeInterface:
+			return true
+		case *ssa.Call:
+			switch CalleeName(x.Common()) {
+			case "errors.New", "fmt.Errorf", "github.com/pkg/errors.New", "github.com/pkg/errors.Errorf":
+				return true
+			case "github.com/pkg/errors.Wrap", "github.com/pkg/errors.Wrapf", "github.com/pkg/errors.WithMessage", "github.com/pkg/errors.WithStack":
+				return len(x.Call.Args) > 0 && sure(x.Call.Args[0], depth+1)
+			}
+		case *ssa.Phi:
+			if depth > 8 || !seen[x.Block()] {
+				return false
+			}
+			vals := PhiValues(x, exec)
+			if len(vals) == 0 {
+				return false
+			}
+			for _, e := range vals {
+				if !sure(e, depth+1) {
+					return false
+				}
+			}
+			return true
+		}
+		return false
+	}
+	isErr := func(t interface{ String() string }) bool { return t.String() == "error" }
+	var out []*ssa.Return
+	for _, b := range fn.Blocks {
+		if !seen[b] {
+			continue
+		}
+		for _, in := range b.Instrs {
+			ret, ok := AsReturn(in)
+			if !ok {
+				continue
+			}
+			if len(ret.Results) == 0 || !isErr(ret.Results[len(ret.Results)-1].Type()) {
+				out = append(out, ret)
+				continue
+			}
+			if !sure(RetVal(ret, len(ret.Results)-1), 0) {
+				out = append(out, ret)
+			}
+		}
+	}
+	return out
+}
